@@ -315,7 +315,7 @@ class HashSeedEngine(Engine):
             extra += rng.choice([["--clusterhmmer"], ["--clusterhmmer", "--pfam2go"], ["--fullhmmer"],
                                  ["--clusterhmmer", "--fullhmmer", "--pfam2go"]])
             names = sorted(PFAM_PROFILES)
-            for record in records:
+            for record in (records if rng.random() < 0.75 else []):    # sometimes a search without a single hit
                 for gene in record["genes"]:
                     aa = (gene["parts"][0][1] - gene["parts"][0][0]) // 3
                     for _ in range(rng.choice([0, 1, 1, 2, 3])):
